@@ -281,6 +281,21 @@ def explore_config(cfg: dict) -> dict:
     except Divergence as d:
         harness.append(f"DIVERGENCE {cfg}: {d}")
     st = ex.stats()
+    if use_cache and st["executions"] > 0 and st["complete_executions"] == 0 \
+            and not cfg.get("_nocache_retry"):
+        # every execution was cut off as "state already seen", the first one
+        # included: the state key sees a cycle where there is none (e.g. a
+        # loop over threads whose iterator is invisible to the key).  Search
+        # this configuration again without the cache (stateless), with a
+        # preemption bound so that it stays finite.
+        again = dict(cfg, cache=False, _nocache_retry=True)
+        if again.get("bound") is None:
+            again["bound"] = 2
+        again.setdefault("max_exec", 60000)
+        res = explore_config(again)
+        res["cfg"] = {k: v for k, v in cfg.items()}
+        res["fallback_uncached"] = True
+        return res
     st.update({
         "cfg": {k: v for k, v in cfg.items()},
         "outcomes": outcomes,
